@@ -145,6 +145,10 @@ class Lengths:
         if e[0] == "uneval":
             return [Form.atom("len(%s)" % e[1].split("::")[-1])]
         if e[0] == "proj":
+            ty = e[3] or ""
+            if re.search(r"\(Iterator>::next\(\w+\)\)@Some\.0", expr_str(e)) and ("Vec<u8>" in ty or "[u8]" in ty or "str" in ty or "Utf8Path" in ty or "String" in ty):
+                # the item of a `for` loop whose pattern variable was looked through
+                return [Form.atom("len(%s)" % expr_str(e))]
             raise Unknown("projection %s" % expr_str(e)[:80])
         if e[0] == "agg" and e[1] == "array":
             return [Form.const(len(e[5]))]
@@ -419,6 +423,15 @@ class Lengths:
                     key = re.sub(r"\(Iterator>::next\(\w+\)\)@Some\.0(\.\*)?", "item", key)
                     alts[key] = True
             forms = []
+            elems = self._array_elems(itn)
+            if elems is not None:
+                # `for x in [a, b]`: the loop is its iterations written out
+                forms = [Form()]
+                for el in elems:
+                    forms = [f0.add(self._parse(re.sub(r"\bitem\b", el, key))) for f0 in forms for key in alts]
+                if any(f_.t for f_ in forms):
+                    self._add(env, k, forms)
+                continue
             for key in alts:
                 if key == "0":
                     forms.append(Form())
@@ -437,7 +450,22 @@ class Lengths:
         f = Form()
         if key == "0":
             return f
-        for part in key.split(" + "):
+        parts, depth, cur, i = [], 0, "", 0
+        while i < len(key):
+            c = key[i]
+            if c in "({[":
+                depth += 1
+            elif c in ")}]":
+                depth -= 1
+            if depth == 0 and key.startswith(" + ", i):
+                parts.append(cur)
+                cur = ""
+                i += 3
+                continue
+            cur += c
+            i += 1
+        parts.append(cur)
+        for part in parts:
             m = re.match(r"^(-?\d+)\*(.+)$", part)
             if re.match(r"^-?\d+$", part):
                 f = f.add(Form.const(int(part)))
@@ -545,6 +573,15 @@ class Lengths:
                 tg = mut_target(a2)
                 if tg in env and last not in ("len", "is_empty", "as_slice", "as_mut_slice", "deref", "deref_mut", "truncate"):
                     raise Unknown("call %s mutates tracked vector %s" % (nm, tg))
+
+    def _array_elems(self, it):
+        """Place names of the elements of a literal array being iterated (`[&self.a, &self.b]`), else None."""
+        it = simp(it)
+        while it[0] == "call" and (callee_name(it) or "").split("::")[-1] in ("into_iter", "iter") and it[3]:
+            it = simp(it[3][0])
+        if it[0] == "agg" and it[1] == "array" and it[5] and all(simp(x)[0] == "place" for x in it[5]):
+            return [_place_name(simp(x)) for x in it[5]]
+        return None
 
     def _list_name(self, it):
         it = simp(it)
